@@ -9,7 +9,9 @@ Local Open Scope Z_scope.
 (** * the supply delta of a commit *)
 Definition gap1 (W : world) (D : sdb) (a : N) : Z :=
   match dirties D !! a, objs D !! a with
-  | Some _, Some o => obal o - zg (bank W) a
+  | Some _, Some o =>
+      if osui o then (if bool_decide (a ∈ wexists W) then - zg (bank W) a else 0)   (* deleted: its bank balance is burned *)
+      else obal o - zg (bank W) a
   | _, _ => 0
   end.
 Fixpoint lsumz (f : N -> Z) (l : list N) : Z := match l with [] => 0 | a :: r => f a + lsumz f r end.
@@ -29,38 +31,81 @@ Proof.
         if skip then (W, o)
         else (mkworld (bank W) (supply W) (wexists W) (deleg W) (unbond W) (wdaddr W) (pending W) (broken W) (grants W)
                       (<[(a, k) := v]> (store W)),
-              mkobj (obal o) (dstor o) (ostor o) (<[k := v]> (tstor o)))) l (Wx, ox))) = obal o).
+              mkobj (obal o) (dstor o) (ostor o) (<[k := v]> (tstor o)) (osui o))) l (Wx, ox))) = obal o).
   { by apply H. }
   induction l as [|[k v] l IH]; intros Wx ox Hb; cbn [fold_left snd]; [done|].
+  destruct (match tstor ox !! k with Some t => t =? v | None => v =? zg (ostor ox) k end); apply IH; done.
+Qed.
+Lemma commit_storage_osui W a o : osui (snd (commit_storage W a o)) = osui o.
+Proof.
+  unfold commit_storage. generalize (map_to_list (dstor o)). intros l.
+  enough (H : forall Wx ox, osui ox = osui o ->
+    osui (snd (fold_left
+     (fun '(W, o) '(k, v) =>
+        let skip := match tstor o !! k with Some t => t =? v | None => v =? zg (ostor o) k end in
+        if skip then (W, o)
+        else (mkworld (bank W) (supply W) (wexists W) (deleg W) (unbond W) (wdaddr W) (pending W) (broken W) (grants W)
+                      (<[(a, k) := v]> (store W)),
+              mkobj (obal o) (dstor o) (ostor o) (<[k := v]> (tstor o)) (osui o))) l (Wx, ox))) = osui o).
+  { by apply H. }
+  induction l as [|[k v] l IH]; intros Wx ox Hb; cbn [fold_left snd]; [done|].
+  destruct (match tstor ox !! k with Some t => t =? v | None => v =? zg (ostor ox) k end); apply IH; done.
+Qed.
+Lemma commit_storage_wexists W a o : wexists (fst (commit_storage W a o)) = wexists W.
+Proof.
+  unfold commit_storage. generalize (map_to_list (dstor o)). intros l.
+  enough (H : forall Wx ox, wexists Wx = wexists W ->
+    wexists (fst (fold_left
+     (fun '(W, o) '(k, v) =>
+        let skip := match tstor o !! k with Some t => t =? v | None => v =? zg (ostor o) k end in
+        if skip then (W, o)
+        else (mkworld (bank W) (supply W) (wexists W) (deleg W) (unbond W) (wdaddr W) (pending W) (broken W) (grants W)
+                      (<[(a, k) := v]> (store W)),
+              mkobj (obal o) (dstor o) (ostor o) (<[k := v]> (tstor o)) (osui o))) l (Wx, ox))) = wexists W).
+  { by apply H. }
+  induction l as [|[k v] l IH]; intros Wx ox Hb; cbn [fold_left fst]; [done|].
   destruct (match tstor ox !! k with Some t => t =? v | None => v =? zg (ostor ox) k end); apply IH; done.
 Qed.
 
 Lemma commit_one_frame W D a W' D' ok : commit_one W D a = (W', D', ok) ->
   dirties D' = dirties D /\
   (forall b, obal <$> objs D' !! b = obal <$> objs D !! b) /\
-  (ok = true -> forall b, b <> a -> zg (bank W') b = zg (bank W) b).
+  (forall b, osui <$> objs D' !! b = osui <$> objs D !! b) /\
+  (ok = true -> forall b, b <> a -> zg (bank W') b = zg (bank W) b /\ (b ∈ wexists W' <-> b ∈ wexists W)).
 Proof.
   unfold commit_one. destruct (objs D !! a) as [o|] eqn:Ho.
   2:{ intros H; inversion H; subst. auto. }
+  destruct (osui o) eqn:Hsu.
+  { intros H; inversion H; subst W' D' ok. split; [done|]. split; [done|]. split; [done|]. intros _ b Hne.
+    unfold delete_account. destruct (bool_decide (a ∈ wexists W)); [|done]. cbn. unfold zg. rewrite lookup_insert_ne by done.
+    split; [done|]. set_solver. }
   cbn [bank supply wexists].
-  destruct (obal o <? 0); [intros H; inversion H; subst; split; [done|]; split; [done|]; discriminate|].
-  destruct ((0 <? obal o - zg (bank W) a) && blocked a); [intros H; inversion H; subst; split; [done|]; split; [done|]; discriminate|].
+  destruct (obal o <? 0); [intros H; inversion H; subst; split; [done|]; split; [done|]; split; [done|]; discriminate|].
+  destruct ((0 <? obal o - zg (bank W) a) && blocked a); [intros H; inversion H; subst; split; [done|]; split; [done|]; split; [done|]; discriminate|].
   set (W1 := mkworld _ _ _ _ _ _ _ _ _ _).
   pose proof (commit_storage_bank W1 a o) as [Hb _].
   pose proof (commit_storage_obal W1 a o) as Hob.
-  destruct (commit_storage W1 a o) as [W2 o2]. cbn [fst snd] in Hb, Hob.
-  intros H; inversion H; subst W' D' ok. cbn. split; [done|]. split.
+  pose proof (commit_storage_osui W1 a o) as Hos.
+  pose proof (commit_storage_wexists W1 a o) as Hwe.
+  destruct (commit_storage W1 a o) as [W2 o2]. cbn [fst snd] in Hb, Hob, Hos, Hwe.
+  intros H; inversion H; subst W' D' ok. cbn. split; [done|]. split; [|split].
   - intros b. destruct (decide (a = b)) as [->|]; [rewrite lookup_insert, Ho; cbn; by rewrite Hob|by rewrite lookup_insert_ne].
-  - intros _ b Hne. unfold zg. rewrite Hb. unfold W1; cbn. by rewrite lookup_insert_ne.
+  - intros b. destruct (decide (a = b)) as [->|]; [rewrite lookup_insert, Ho; cbn; by rewrite Hos|by rewrite lookup_insert_ne].
+  - intros _ b Hne. unfold zg. rewrite Hb, Hwe. unfold W1; cbn. rewrite lookup_insert_ne by done. split; [done|]. set_solver.
 Qed.
 
 Lemma gap1_frame W D W' D' a : dirties D' = dirties D ->
-  (forall b, obal <$> objs D' !! b = obal <$> objs D !! b) -> zg (bank W') a = zg (bank W) a ->
+  (forall b, obal <$> objs D' !! b = obal <$> objs D !! b) ->
+  (forall b, osui <$> objs D' !! b = osui <$> objs D !! b) ->
+  zg (bank W') a = zg (bank W) a -> (a ∈ wexists W' <-> a ∈ wexists W) ->
   gap1 W' D' a = gap1 W D a.
 Proof.
-  intros Hd Ho Hb. unfold gap1. rewrite Hd. specialize (Ho a).
-  destruct (dirties D !! a); [|done]. destruct (objs D' !! a), (objs D !! a); cbn in Ho; try congruence.
-  all: inversion Ho; by rewrite Hb.
+  intros Hd Ho Hs Hb Hw. unfold gap1. rewrite Hd. specialize (Ho a). specialize (Hs a).
+  destruct (dirties D !! a); [|done]. destruct (objs D' !! a) as [o'|], (objs D !! a) as [o|]; cbn in Ho, Hs; try congruence.
+  inversion Ho as [Ho']. inversion Hs as [Hs']. rewrite Ho', Hs', Hb.
+  destruct (osui o); [|done]. destruct (decide (a ∈ wexists W)) as [Hin|Hn].
+  - rewrite !bool_decide_eq_true_2 by tauto. done.
+  - rewrite !bool_decide_eq_false_2 by tauto. done.
 Qed.
 
 Theorem commit_supply_formula : forall order W D W' D',
@@ -73,13 +118,20 @@ Proof.
     destruct (dirties D !! a) as [c|] eqn:Hda.
     + rewrite bool_decide_eq_true_2 in H by eauto.
       destruct (commit_one W D a) as [[W1 D1] ok] eqn:Hc. destruct ok; [|inversion H].
-      destruct (commit_one_frame _ _ _ _ _ _ Hc) as (Hd & Ho & Hb). specialize (Hb eq_refl).
+      destruct (commit_one_frame _ _ _ _ _ _ Hc) as (Hd & Ho & Hsu & Hb). specialize (Hb eq_refl).
       rewrite (IH _ _ _ _ Hnd H).
       assert (Hr : lsumz (gap1 W1 D1) r = lsumz (gap1 W D) r).
-      { apply lsumz_ext. intros b Hin. apply gap1_frame; auto. apply Hb. intros ->. apply Hna. by apply elem_of_list_In. }
+      { apply lsumz_ext. intros b Hin.
+        assert (Hne : b <> a) by (intros ->; apply Hna; by apply elem_of_list_In).
+        apply gap1_frame; auto; by apply Hb. }
       rewrite Hr. unfold gap1 at 2. rewrite Hda.
       destruct (objs D !! a) as [o|] eqn:Hoa.
-      * destruct (commit_one_exact _ _ _ _ _ _ Hoa Hc) as (_ & Hs & _). lia.
+      * destruct (osui o) eqn:Hos.
+        -- destruct (commit_one_suicided_exact _ _ _ _ _ _ _ Hoa Hos Hc) as (_ & _ & _ & Hin & Hn & _).
+           destruct (decide (a ∈ wexists W)) as [Hi|Hi].
+           ++ rewrite bool_decide_eq_true_2 by done. destruct (Hin Hi) as [_ Hs]. lia.
+           ++ rewrite bool_decide_eq_false_2 by done. rewrite (Hn Hi). lia.
+        -- destruct (commit_one_exact _ _ _ _ _ _ Hoa Hos Hc) as (_ & Hs & _). lia.
       * unfold commit_one in Hc. rewrite Hoa in Hc. inversion Hc. lia.
     + rewrite bool_decide_eq_false_2 in H by (intros [? ?]; congruence).
       rewrite (IH _ _ _ _ Hnd H). unfold gap1 at 2. rewrite Hda. lia.
@@ -158,7 +210,7 @@ Proof.
 Qed.
 
 Lemma create_facts U W D a : wf W D -> cohp W D -> world_ok W -> objs D !! a = None -> a ∉ wexists W ->
-  let D' := japp (set_obj D a (mkobj 0 ∅ ∅ ∅)) (JCreate a) in
+  let D' := japp (set_obj D a (mkobj 0 ∅ ∅ ∅ false)) (JCreate a) in
   cohp W D' /\ total U W D' = total U W D.
 Proof.
   intros Hwf Hc Hw Hn Hne D'. split.
@@ -232,18 +284,18 @@ Proof.
              | None => match ostor o !! k with
                        | Some c => (c, o)
                        | None => (zg (store W) (a, k),
-                                  mkobj (obal o) (dstor o) (<[k := zg (store W) (a, k)]> (ostor o)) (tstor o))
+                                  mkobj (obal o) (dstor o) (<[k := zg (store W) (a, k)]> (ostor o)) (tstor o) (osui o))
                        end
              end).
   assert (Hpr : fst pr = rs W a o k /\ obal (snd pr) = obal o /\ tstor (snd pr) = tstor o /\ dstor (snd pr) = dstor o /\
-                forall k', rs W a (snd pr) k' = rs W a o k').
+                osui (snd pr) = osui o /\ forall k', rs W a (snd pr) k' = rs W a o k').
   { unfold pr, rs. destruct (dstor o !! k) eqn:Ed; cbn.
     - repeat split; auto.
     - destruct (ostor o !! k) eqn:Eo; cbn.
       + repeat split; auto.
       + repeat split; auto. intros k'. destruct (dstor o !! k'); [done|].
         destruct (decide (k = k')) as [->|]; [by rewrite lookup_insert, Eo|by rewrite lookup_insert_ne]. }
-  destruct pr as [prev o1]. cbn [fst snd] in Hpr. destruct Hpr as (Hprev & Hb1 & Ht1 & Hd1 & Hrs1).
+  destruct pr as [prev o1]. cbn [fst snd] in Hpr. destruct Hpr as (Hprev & Hb1 & Ht1 & Hd1 & Hs1 & Hrs1).
   destruct (prev =? v).
   - split.
     + intros b. cbn. destruct (decide (a = b)) as [->|]; [by rewrite lookup_insert, Ho; cbn; rewrite Hb1|by rewrite lookup_insert_ne].
@@ -255,11 +307,11 @@ Proof.
     + right. exists prev. split; [reflexivity|]. split; [|split].
       * cbn [length pop_n japp journal set_obj objs dirties logs dirtied]. rewrite undo_split.
         unfold undo_core, undo_dirt; cbn [dirtied objs journal dirties logs set_obj].
-        rewrite lookup_insert. cbn [objs journal dirties logs set_obj obal dstor ostor tstor].
+        rewrite lookup_insert. cbn [objs journal dirties logs set_obj obal dstor ostor tstor osui].
         destruct Hwf1 as (_ & Hp & _). rewrite (dirt_rt (dirties D1) a (Hp a)).
         unfold obs_eq; cbn. split; [done|]. split; [done|]. split; [done|].
         intros b. destruct (decide (a = b)) as [->|]; [|rewrite !lookup_insert_ne by done; apply oeq_refl].
-        rewrite lookup_insert, Ho. cbn. split; [done|]. split; [done|].
+        rewrite lookup_insert, Ho. cbn. split; [done|]. split; [done|]. split; [done|].
         intros k'. rewrite <- Hrs1. unfold rs at 1; cbn. rewrite insert_insert.
         destruct (decide (k = k')) as [->|Hk].
         -- rewrite lookup_insert. rewrite Hprev. symmetry. apply Hrs1.
@@ -293,6 +345,14 @@ Fixpoint closedb (U : list N) (i : instr) : bool :=
   | _ => true
   end.
 
+(** no SELFDESTRUCT anywhere in the program *)
+Fixpoint nosd (i : instr) : bool :=
+  match i with
+  | ISelfdestruct _ => false
+  | ICall _ _ _ _ body => forallb nosd body
+  | _ => true
+  end.
+
 Definition pstep2 (U : list N) (W : world) (D : sdb) (r : st * outcome) : Prop :=
   fst (fst r) = W /\ ext W D (snd (fst r)) /\ cohp W (snd (fst r)) /\ total U W (snd (fst r)) = total U W D.
 
@@ -318,7 +378,7 @@ Proof.
   rewrite !(load_id _ _ _ Hwf).
   set (D2 := match objs D !! target with
              | Some _ => D
-             | None => japp (set_obj D target (mkobj 0 ∅ ∅ ∅)) (JCreate target)
+             | None => japp (set_obj D target (mkobj 0 ∅ ∅ ∅ false)) (JCreate target)
              end).
   assert (H2 : ext W D D2 /\ cohp W D2 /\ total U W D2 = total U W D).
   { unfold D2. destruct (objs D !! target) eqn:E; [split; [by apply ext_refl|by split]|].
@@ -361,25 +421,27 @@ Proof.
   destruct (catch || _); unfold pstep2; cbn [fst snd]; tauto.
 Qed.
 
-Theorem pure_instr2 U : NoDup U -> forall i, pure i = true -> closedb U i = true ->
+Theorem pure_instr2 U : NoDup U -> forall i, pure i = true -> nosd i = true -> closedb U i = true ->
   forall order o self W D, world_ok W -> self ∈ U -> wf W D -> cohp W D ->
     pstep2 U W D (exec_instr order o self i (W, D)).
 Proof.
   intros Hnd.
-  induction i as [k v| | |a|t v c r body IH|p v c r] using instr_ind'; intros Hp Hcl order o self W D Hw Hself Hwf Hc;
+  induction i as [k v| | |a|b|t v c r body IH|p v c r] using instr_ind'; intros Hp Hns Hcl order o self W D Hw Hself Hwf Hc;
     cbn [exec_instr].
   - split; [done|]. split; [by apply set_state_ext|]. by apply set_state_facts.
   - split; [done|]. split; [by apply add_log_ext|]. by apply add_log_facts.
   - split; [done|]. split; [by apply ext_refl|]. by split.
   - split; [done|]. cbn. rewrite load_id by done. split; [by apply ext_refl|]. by split.
-  - cbn [pure closedb] in Hp, Hcl. apply andb_prop in Hcl as [Ht Hcb]. apply bool_decide_eq_true in Ht.
+  - discriminate.
+  - cbn [pure closedb nosd] in Hp, Hcl, Hns. apply andb_prop in Hcl as [Ht Hcb]. apply bool_decide_eq_true in Ht.
     apply after_call_pure2; [done|]. apply do_call_pure2; auto.
     intros D1 Hwf1 Hc1. destruct (N.leb 2 t && N.leb t 4).
     2:{ split; [done|]. split; [by apply ext_refl|]. by split. }
     clear Hwf Hc D. revert D1 Hwf1 Hc1.
     induction body as [|x body IHb]; intros D1 Hwf1 Hc1.
     { split; [done|]. split; [by apply ext_refl|]. by split. }
-    cbn [forallb] in Hp, Hcb. apply andb_prop in Hp as [Hpx Hpb]. apply andb_prop in Hcb as [Hcx Hcbb].
+    cbn [forallb] in Hp, Hcb, Hns. apply andb_prop in Hp as [Hpx Hpb]. apply andb_prop in Hcb as [Hcx Hcbb].
+    apply andb_prop in Hns as [Hnx Hnb].
     inversion IH as [|? ? IHx IHrest]; subst.
     apply (pstep2_seq U W D1 (exec_instr order o t x (W, D1))).
     + by apply IHx.
@@ -388,15 +450,146 @@ Proof.
 Qed.
 
 Lemma pure_list2 U order o self W : NoDup U -> world_ok W -> self ∈ U ->
-  forall body, forallb pure body = true -> forallb (closedb U) body = true ->
+  forall body, forallb pure body = true -> forallb nosd body = true -> forallb (closedb U) body = true ->
   forall D, wf W D -> cohp W D -> pstep2 U W D (exec_list order o self body (W, D)).
 Proof.
-  intros Hnd Hw Hself. induction body as [|x body IH]; intros Hp Hcl D Hwf Hc; cbn [exec_list].
+  intros Hnd Hw Hself. induction body as [|x body IH]; intros Hp Hns Hcl D Hwf Hc; cbn [exec_list].
   { split; [done|]. split; [by apply ext_refl|]. by split. }
-  cbn [forallb] in Hp, Hcl. apply andb_prop in Hp as [Hpx Hpb]. apply andb_prop in Hcl as [Hcx Hcb].
+  cbn [forallb] in Hp, Hcl, Hns. apply andb_prop in Hp as [Hpx Hpb]. apply andb_prop in Hcl as [Hcx Hcb].
+  apply andb_prop in Hns as [Hnx Hnb].
   apply (pstep2_seq U W D (exec_instr order o self x (W, D))).
   - by apply pure_instr2.
   - intros D2 Hwf2 Hc2. by apply IH.
+Qed.
+
+(** * programs without SELFDESTRUCT never mark an object as self-destructed *)
+Definition live (D : sdb) : Prop :=
+  (forall a o, objs D !! a = Some o -> osui o = false) /\ (forall a p pb, ~ In (JSuicide a p pb) (journal D)).
+
+Lemma live_set_obj D a o : live D -> osui o = false -> live (set_obj D a o).
+Proof.
+  intros [Ho Hj] Hs. split; [|exact Hj]. intros b ob. cbn.
+  destruct (decide (a = b)) as [->|]; [rewrite lookup_insert; by intros [= <-]|rewrite lookup_insert_ne by done; apply Ho].
+Qed.
+Lemma live_japp D e : live D -> (forall a p pb, e <> JSuicide a p pb) -> live (japp D e).
+Proof. intros [Ho Hj] He. split; [exact Ho|]. intros a p pb [Hin|Hin]; [by eapply He|by eapply Hj]. Qed.
+Lemma live_load W D a : live D -> live (load W D a).
+Proof.
+  intros Hl. unfold load. destruct (objs D !! a); [done|]. destruct (bool_decide _); [|done]. by apply live_set_obj.
+Qed.
+Lemma live_get_or_new W D a : live D -> live (get_or_new W D a).
+Proof.
+  intros Hl. unfold get_or_new. pose proof (live_load W D a Hl) as Hl1. destruct (objs (load W D a) !! a); [done|].
+  apply live_japp; [by apply live_set_obj|]. intros; discriminate.
+Qed.
+Lemma live_set_bal D a v : live D -> live (set_bal D a v).
+Proof.
+  intros Hl. unfold set_bal. destruct (objs D !! a) as [o|] eqn:E; [|done].
+  apply live_set_obj; [apply live_japp; [done|intros; discriminate]|]. cbn. by apply (proj1 Hl a o).
+Qed.
+Lemma live_add_bal W D a amt : live D -> live (add_bal W D a amt).
+Proof. intros Hl. unfold add_bal. destruct (amt =? 0); [by apply live_get_or_new|]. by apply live_set_bal, live_get_or_new. Qed.
+Lemma live_add_log D : live D -> live (add_log D).
+Proof.
+  intros [Ho Hj]. split; [exact Ho|]. intros a p pb. cbn. intros [Hin|Hin]; [discriminate|by eapply Hj].
+Qed.
+Lemma live_set_state W D a k v : live D -> live (set_state W D a k v).
+Proof.
+  intros Hl. unfold set_state. pose proof (live_get_or_new W D a Hl) as Hl1.
+  destruct (objs (get_or_new W D a) !! a) as [o|] eqn:E; [|done].
+  pose proof (proj1 Hl1 a o E) as Hso.
+  destruct (dstor o !! k) as [d|].
+  - destruct (d =? v); [by apply live_set_obj|]. apply live_set_obj; [apply live_japp; [done|intros; discriminate]|done].
+  - destruct (ostor o !! k) as [c|].
+    + destruct (c =? v); [by apply live_set_obj|]. apply live_set_obj; [apply live_japp; [done|intros; discriminate]|done].
+    + destruct (zg (store W) (a, k) =? v); [by apply live_set_obj|].
+      apply live_set_obj; [apply live_japp; [done|intros; discriminate]|done].
+Qed.
+Lemma live_undo D e r : live D -> journal D = e :: r -> live (undo (mksdb (objs D) r (dirties D) (logs D)) e).
+Proof.
+  intros [Ho Hj] Hjr. rewrite undo_split.
+  assert (Hr : forall a p pb, ~ In (JSuicide a p pb) r).
+  { intros a p pb Hin. apply (Hj a p pb). rewrite Hjr. by right. }
+  assert (Hjj : journal (undo_dirt (undo_core (mksdb (objs D) r (dirties D) (logs D)) e) e) = r).
+  { rewrite <- undo_split, journal_undo. reflexivity. }
+  split; [|intros a p pb; rewrite Hjj; apply Hr].
+  assert (Hob : objs (undo_dirt (undo_core (mksdb (objs D) r (dirties D) (logs D)) e) e) =
+                objs (undo_core (mksdb (objs D) r (dirties D) (logs D)) e)).
+  { unfold undo_dirt. by destruct (dirtied e). }
+  rewrite Hob. unfold undo_core. destruct e as [a0 p|a0 k p|a0| |a0 p pb]; cbn.
+  - destruct (objs D !! a0) as [o0|] eqn:E; cbn; [|exact Ho]. intros b ob.
+    destruct (decide (a0 = b)) as [->|]; [rewrite lookup_insert; intros [= <-]; cbn; by apply (Ho b o0)|rewrite lookup_insert_ne by done; apply Ho].
+  - destruct (objs D !! a0) as [o0|] eqn:E; cbn; [|exact Ho]. intros b ob.
+    destruct (decide (a0 = b)) as [->|]; [rewrite lookup_insert; intros [= <-]; cbn; by apply (Ho b o0)|rewrite lookup_insert_ne by done; apply Ho].
+  - intros b ob. destruct (decide (a0 = b)) as [->|]; [by rewrite lookup_delete|rewrite lookup_delete_ne by done; apply Ho].
+  - exact Ho.
+  - exfalso. apply (Hj a0 p pb). rewrite Hjr. by left.
+Qed.
+Lemma live_pop_n n : forall D, live D -> live (pop_n D n).
+Proof.
+  induction n as [|n IH]; intros D Hl; cbn [pop_n]; [done|].
+  destruct (journal D) as [|e r] eqn:E; [done|]. apply IH. by apply live_undo.
+Qed.
+Lemma live_revert D n : live D -> live (revert_to D n).
+Proof. intros Hl. unfold revert_to. by apply live_pop_n. Qed.
+
+Definition lstep (r : st * outcome) : Prop := live (snd (fst r)).
+
+Lemma do_call_live order W D caller target value run :
+  live D -> (forall W1 D1, live D1 -> lstep (run (W1, D1))) -> lstep (do_call order (W, D) caller target value run).
+Proof.
+  intros Hl Hrun. unfold do_call, lstep.
+  destruct (negb (value =? 0) && (cbal (load W D caller) caller <? value)); [cbn; by apply live_load|].
+  set (D0 := if value =? 0 then D else load W D caller).
+  assert (Hl0 : live D0) by (unfold D0; destruct (value =? 0); [done|by apply live_load]).
+  set (D2 := match objs (load W D0 target) !! target with
+             | Some _ => load W D0 target
+             | None => japp (set_obj (load W D0 target) target (mkobj 0 ∅ ∅ ∅ false)) (JCreate target)
+             end).
+  assert (Hl2 : live D2).
+  { unfold D2. pose proof (live_load W D0 target Hl0) as H1. destruct (objs (load W D0 target) !! target); [done|].
+    apply live_japp; [by apply live_set_obj|intros; discriminate]. }
+  assert (Hl3 : live (add_bal W (sub_bal W D2 caller value) target value)) by (unfold sub_bal; by apply live_add_bal, live_add_bal).
+  specialize (Hrun W _ Hl3). unfold lstep in Hrun.
+  destruct (run (W, add_bal W (sub_bal W D2 caller value) target value)) as [[W4 D4] oc]. cbn in Hrun.
+  destruct oc; cbn; [done|by apply live_revert].
+Qed.
+Lemma after_call_live self catch rec r : lstep r -> lstep (after_call self catch rec r).
+Proof.
+  destruct r as [[W D] oc]. unfold lstep, after_call. cbn. intros Hl.
+  assert (H2 : live (match rec with Some slot => set_state W D self slot (if match oc with Ok => true | Fail => false end then 2 else 1) | None => D end)).
+  { destruct rec; [by apply live_set_state|done]. }
+  destruct (catch || _); exact H2.
+Qed.
+
+Theorem nosd_instr_live : forall i, pure i = true -> nosd i = true ->
+  forall order o self W D, live D -> lstep (exec_instr order o self i (W, D)).
+Proof.
+  induction i as [k v| | |a|b|t v c r body IH|p v c r] using instr_ind'; intros Hp Hns order o self W D Hl;
+    cbn [exec_instr]; unfold lstep.
+  - cbn. by apply live_set_state.
+  - cbn. by apply live_add_log.
+  - done.
+  - cbn. by apply live_load.
+  - discriminate.
+  - cbn [pure nosd] in Hp, Hns. apply after_call_live. apply do_call_live; [done|].
+    intros W1 D1 Hl1. destruct (N.leb 2 t && N.leb t 4); [|exact Hl1].
+    revert W1 D1 Hl1.
+    induction body as [|x body IHb]; intros W1 D1 Hl1; [exact Hl1|].
+    cbn [forallb] in Hp, Hns. apply andb_prop in Hp as [Hpx Hpb]. apply andb_prop in Hns as [Hnx Hnb].
+    inversion IH as [|? ? IHx IHrest]; subst.
+    specialize (IHx Hpx Hnx order o t W1 D1 Hl1). unfold lstep in IHx.
+    destruct (exec_instr order o t x (W1, D1)) as [[W2 D2] oc]. cbn in IHx. destruct oc; [|exact IHx].
+    by apply IHb.
+  - discriminate.
+Qed.
+Lemma nosd_list_live order o self : forall body, forallb pure body = true -> forallb nosd body = true ->
+  forall W D, live D -> lstep (exec_list order o self body (W, D)).
+Proof.
+  induction body as [|x body IH]; intros Hp Hns W D Hl; cbn [exec_list]; [exact Hl|].
+  cbn [forallb] in Hp, Hns. apply andb_prop in Hp as [Hpx Hpb]. apply andb_prop in Hns as [Hnx Hnb].
+  pose proof (nosd_instr_live x Hpx Hnx order o self W D Hl) as H1. unfold lstep in H1.
+  destruct (exec_instr order o self x (W, D)) as [[W2 D2] oc]. cbn in H1. destruct oc; [|exact H1]. by apply IH.
 Qed.
 
 (** * a whole pure transaction conserves the total supply *)
@@ -416,30 +609,34 @@ Proof. reflexivity. Qed.
 Lemma lsumz_sub f g l : lsumz (fun a => f a - g a) l = lsumz f l - lsumz g l.
 Proof. induction l as [|a r IH]; cbn; lia. Qed.
 
-Lemma gap_is_view_minus_bank W D order : coh W D ->
+Lemma gap_is_view_minus_bank W D order : coh W D -> live D ->
   lsumz (gap1 W D) order = total order W D - lsumz (fun a => zg (bank W) a) order.
 Proof.
-  intros Hc. unfold total. rewrite <- lsumz_sub. apply lsumz_ext. intros a _. unfold gap1, view.
+  intros Hc [Hl _]. unfold total. rewrite <- lsumz_sub. apply lsumz_ext. intros a _. unfold gap1, view.
   destruct (dirties D !! a) eqn:Hd, (objs D !! a) as [o|] eqn:Ho; try lia.
-  rewrite (Hc a o Ho Hd). lia.
+  - by rewrite (Hl a o Ho).
+  - rewrite (Hc a o Ho Hd). lia.
 Qed.
 
 Theorem pure_tx_conserves_supply order W0 D0 value c body :
   NoDup order -> world_ok W0 -> 0%N ∈ order -> c ∈ order ->
-  forallb pure body = true -> forallb (closedb order) body = true ->
-  wf W0 D0 -> cohp W0 D0 -> dirties D0 = ∅ ->
+  forallb pure body = true -> forallb nosd body = true -> forallb (closedb order) body = true ->
+  wf W0 D0 -> cohp W0 D0 -> dirties D0 = ∅ -> live D0 ->
   supply (fst (run_tx_from order W0 D0 value (TopCall c body))) = supply W0.
 Proof.
-  intros Hnd Hw H0 Hc Hp Hcl Hwf Hcoh Hd0. unfold run_tx_from.
+  intros Hnd Hw H0 Hc Hp Hns Hcl Hwf Hcoh Hd0 Hlv. unfold run_tx_from.
   pose proof (do_call_pure2 order order W0 D0 0%N c value (exec_list order 0%N c body)
                 Hwf Hcoh Hw Hnd H0 Hc) as Hstep.
   destruct Hstep as (HW & He & Hc1 & Ht).
   { intros D1 Hwf1 Hc1. by apply pure_list2. }
+  pose proof (do_call_live order W0 D0 0%N c value (exec_list order 0%N c body) Hlv) as Hlive.
+  unfold lstep in Hlive.
   destruct (do_call order (W0, D0) 0%N c value (exec_list order 0%N c body)) as [[W D] oc].
-  cbn [fst snd] in HW, He, Hc1, Ht. subst W.
+  cbn [fst snd] in HW, He, Hc1, Ht, Hlive. subst W.
+  assert (HlD : live D). { apply Hlive. intros W1 D1 Hl1. by apply nosd_list_live. }
   destruct (commit order W0 D) as [[W1 D1] ok] eqn:Hcm. destruct ok; [|done]. destruct oc; [|done].
   cbn [fst]. unfold commit in Hcm. rewrite (commit_supply_formula order W0 D W1 D1 Hnd Hcm).
-  rewrite (gap_is_view_minus_bank W0 D order (cohp_here _ _ Hc1)). rewrite Ht.
+  rewrite (gap_is_view_minus_bank W0 D order (cohp_here _ _ Hc1) HlD). rewrite Ht.
   assert (Hinit : total order W0 D0 = lsumz (fun a => zg (bank W0) a) order).
   { apply lsumz_ext. intros a _. unfold view. destruct (objs D0 !! a) as [o|] eqn:Ho; [|done].
     apply (cohp_here _ _ Hcoh a o Ho). by rewrite Hd0. }
@@ -452,7 +649,7 @@ Definition sat_cache (W : world) (l : list N) : sdb := fold_left (fun D a => loa
 
 Definition clean_inv (W : world) (D : sdb) : Prop :=
   journal D = [] /\ dirties D = ∅ /\
-  forall a o, objs D !! a = Some o -> o = mkobj (zg (bank W) a) ∅ ∅ ∅.
+  forall a o, objs D !! a = Some o -> o = mkobj (zg (bank W) a) ∅ ∅ ∅ false.
 
 Lemma load_clean_inv W D a : clean_inv W D -> clean_inv W (load W D a).
 Proof.
@@ -472,7 +669,7 @@ Proof.
 Qed.
 
 Lemma sat_cache_ok W l : (forall a, a ∈ wexists W -> a ∈ l) ->
-  wf W (sat_cache W l) /\ cohp W (sat_cache W l) /\ dirties (sat_cache W l) = ∅.
+  wf W (sat_cache W l) /\ cohp W (sat_cache W l) /\ dirties (sat_cache W l) = ∅ /\ live (sat_cache W l).
 Proof.
   intros Hall. unfold sat_cache.
   assert (H : forall l D, clean_inv W D ->
@@ -486,21 +683,22 @@ Proof.
       + apply elem_of_cons in Hin as [->|Hin]; [right; by apply load_loads|left; done].
       + right. by apply load_keeps. }
   destruct (H l sdb0) as [(Hj & Hd & Ho) Hl]; [by repeat split|].
-  split; [|split; [|done]].
+  split; [|split; [|split; [done|]]].
   - split; [|split].
     + intros a Ha. apply Hl. left. split; [by apply Hall|done].
     + intros a c. rewrite Hd. by rewrite lookup_empty.
     + intros a. rewrite Hj. intros [].
   - intros n Hn. unfold jlen in Hn. rewrite Hj in Hn. cbn in Hn. assert (n = 0)%nat as -> by lia.
     unfold revert_to. rewrite Hj. cbn. intros a o Hoa _. by rewrite (Ho a o Hoa).
+  - split; [intros a o Hoa; by rewrite (Ho a o Hoa)|]. intros a p pb. rewrite Hj. intros [].
 Qed.
 
 (** the theorem instantiated: from the saturated clean cache every pure, closed program conserves supply *)
 Corollary pure_tx_conserves_supply_from_clean order W0 value c body :
   NoDup order -> world_ok W0 -> (forall a, a ∈ wexists W0 -> a ∈ order) -> 0%N ∈ order -> c ∈ order ->
-  forallb pure body = true -> forallb (closedb order) body = true ->
+  forallb pure body = true -> forallb nosd body = true -> forallb (closedb order) body = true ->
   supply (fst (run_tx_from order W0 (sat_cache W0 order) value (TopCall c body))) = supply W0.
 Proof.
-  intros Hnd Hw Hall H0 Hc Hp Hcl. destruct (sat_cache_ok W0 order Hall) as (Hwf & Hcoh & Hd).
+  intros Hnd Hw Hall H0 Hc Hp Hns Hcl. destruct (sat_cache_ok W0 order Hall) as (Hwf & Hcoh & Hd & Hlv).
   by apply pure_tx_conserves_supply.
 Qed.
